@@ -36,6 +36,37 @@ func (x *X) call(fr *frame, in ssa.Instruction, c *ssa.CallCommon) Val {
 	if clo, ok := x.get(fr, c.Value).(Clo); ok && clo.Fn != nil {
 		return x.callStatic(clo.Fn, args, clo.Free, in)
 	}
+	if cs, ok := x.get(fr, c.Value).(CloSet); ok {
+		base := x.st
+		var es []edge
+		var vals []Val
+		var conds []string
+		prior := "true"
+		for _, a := range cs.Alts {
+			if a.C.Fn == nil {
+				unsup("call of possibly nil function value")
+			}
+			cnd := and(prior, a.Cond)
+			prior = and(prior, not(a.Cond))
+			st := base.clone()
+			st.cond = x.define("fc", SBool, and(base.cond, cnd))
+			x.st = st
+			vals = append(vals, x.callStatic(a.C.Fn, args, a.C.Free, in))
+			conds = append(conds, cnd)
+			es = append(es, edge{st: x.st})
+		}
+		res := vals[len(vals)-1]
+		for i := len(vals) - 2; i >= 0; i-- {
+			res = x.mergeVals(conds[i], vals[i], res)
+		}
+		st := x.mergeEdges(es)
+		if st == nil {
+			st = base.clone()
+			st.cond = "false"
+		}
+		x.st = st
+		return x.nameVal("fcall", res)
+	}
 	unsup("dynamic call of %s", c.Value)
 	return nil
 }
@@ -69,6 +100,11 @@ func (x *X) callStatic(f *ssa.Function, args []Val, free []Val, in ssa.Instructi
 		}
 	}
 	if f.Blocks != nil && (isRepoPkg(pkgOf(f)) || inlinableStd[full]) {
+		if x.mode == modeVC && len(x.stack) >= 4 {
+			// deep in the call tree: forget what the callee does (sound: result and written heap unknown)
+			x.havocWrites(x.fnWrites(f), "call of "+name+" below the inlining depth")
+			return x.freshVal(resultType(f.Signature), sanitize(f.Name()))
+		}
 		return x.execFunc(f, args, free)
 	}
 	return x.havocCall(f, args, full)
@@ -369,6 +405,8 @@ var mapLitCache = map[*ssa.Global]*mapLit{}
 // globalMapLit returns the literal contents of a package-level map that is
 // initialised by a composite literal and never written afterwards.
 func (x *X) globalMapLit(g *ssa.Global) *mapLit {
+	cacheMu.Lock()
+	defer cacheMu.Unlock()
 	if ml, ok := mapLitCache[g]; ok {
 		return ml
 	}
